@@ -3,6 +3,7 @@ import P2PVerif.Model.Reasm
 import P2PVerif.Lemmas.Checked
 import P2PVerif.Props.C10
 import P2PVerif.Lemmas.SrcKe
+import P2PVerif.Lemmas.SrcIter
 /-! # C08 — no bytes from the network can crash a node
 Property theorems only. `Model/Checked.lean` re-writes the packet-facing entry points with Go's checked slice
 and index expressions (`Except Fault`); the theorems say that for EVERY input — and, for the stateful
@@ -144,5 +145,20 @@ theorem src_classifiers_total (x : Go.Bytes) (n : Int) :
     intro ⟨h1, h2⟩
     simp only [Except.ok.injEq, decide_eq_true_eq] at h1 h2
     omega
+
+/-- ⊢ regenerated, no fault in the iteration: whatever peers the contacted nodes return (the callback `g` is
+    arbitrary: lists of any length, with any ids, repeated, cyclic), the regenerated `dhtIterate` with a candidate
+    limit of at least 1 never hits an index, slice or other run-time panic: it ends, or exhausts the model's loop fuel
+    of 2^64+1 rounds. -/
+theorem src_iterate_no_fault {σ : Type} (key : Go.Bytes) (n : Int) (hn : 1 ≤ n)
+    (g : σ → Src.kademlia.NodeInfoT → σ × List Src.kademlia.NodeInfoT × Bool)
+    (nodes : List Src.kademlia.NodeInfoT) (st0 : σ) :
+    Src.kademlia.dhtIterate nodes key n (fun s x => pure (g s x)) st0 = .error .fuel ∨
+    ∃ st, Src.kademlia.dhtIterate nodes key n (fun s x => pure (g s x)) st0 = .ok st := by
+  rcases Src.dhtIterate_inv key n g (fun _ => True) (fun _ _ => True)
+      (fun _ _ _ _ _ _ => ⟨trivial, fun _ _ => trivial⟩) nodes (fun _ _ => trivial) st0 trivial with h | h | ⟨st, h, _⟩
+  · exact .inl h
+  · exact absurd h.2.1 (by omega)
+  · exact .inr ⟨st, h⟩
 
 end P2PVerif.C08
